@@ -349,6 +349,49 @@ def check(run):
         cons.setdefault(hid, label)
     stats['distinct-views'] = len(views)
     del jug.task.alltasks[:]
+    # views of a mapped sequence that select different elements (or the same ones in another order) are different operands
+    import itertools as _it
+    for n_, step_ in ((5, 2), (8, 3), (3, 4)):
+        ms = jmap(hm._m21, list(range(n_)), map_step=step_)
+        seen = {}
+        bounds = [None] + list(range(-n_ - 1, n_ + 2))
+        cand = [('xs', ms, tuple(range(n_)))]
+        for a_, b_, c_ in _it.product(bounds, bounds, (None, -3, -2, -1, 1, 2, 3)):
+            sl = slice(a_, b_, c_)
+            sel = tuple(range(n_)[sl])
+            cand.append(('xs[%s:%s:%s]' % (a_, b_, c_), ms[sl], sel))
+            if a_ in (None, 1) and b_ in (None, n_ - 1) and len(sel) > 1:
+                for c2 in (-1, 2, -2):
+                    cand.append(('xs[%s:%s:%s][::%d]' % (a_, b_, c_, c2), ms[sl][::c2], sel[::c2]))
+        for label, v, sel in cand:
+            hid = Task(hm.h2, v).hash().decode()
+            run.count('mapped_view_cases')
+            if hid in seen and seen[hid][1] != sel:
+                run.case(('mapped-views', n_, step_, label), nontrivial=True)
+                run.fail('collision:views-of-a-mapped-sequence', 'with xs = map(f, range(%d), map_step=%d): h2(%s) (elements %s) and h2(%s) (elements %s) share the identifier %s'
+                         % (n_, step_, seen[hid][0], list(seen[hid][1]), label, list(sel), hid), {'kind': 'mapped-views', 'n': n_, 'step': step_, 'a': seen[hid][0], 'b': label})
+                break
+            seen.setdefault(hid, (label, sel))
+        run.case(('mapped-views', n_, step_), nontrivial=True)
+        del jug.task.alltasks[:]
+    stats['mapped-views'] = run.counts.get('mapped_view_cases', 0)
+    # record arrays over the same bytes whose dtypes differ in a field's name, type, order or nesting (same item size, same shape)
+    import numpy as _np
+    buf = bytes(range(48))
+    rdts = [[('id', '<i4'), ('weight', '<i4')], [('id', '<i4'), ('height', '<i4')], [('id', '<i4'), ('weight', '<f4')], [('weight', '<i4'), ('id', '<i4')],
+            [('pair', '<i4', (2,))], [('id', '<i4'), ('weight', '>i4')], [('id', '<u4'), ('weight', '<i4')], [('p', [('id', '<i4'), ('weight', '<i4')])],
+            [('id', '<i2'), ('x', '<i2'), ('weight', '<i4')], [('id', '<i8')], '<i8', '<f8', 'V8', 'S8']
+    seen = {}
+    for dt in rdts:
+        arr = _np.frombuffer(buf, dtype=_np.dtype(dt))
+        hid = Task(hm.f, arr).hash().decode()
+        run.case(('record-dtypes', str(dt)), nontrivial=True)
+        if hid in seen:
+            run.fail('collision:record-dtypes', 'f(A) and f(B) share the identifier %s where A and B are arrays over the same 48 bytes with dtypes %s and %s' % (hid, seen[hid], dt),
+                     {'kind': 'record-dtypes', 'a': str(seen[hid]), 'b': str(dt)})
+        seen.setdefault(hid, dt)
+    stats['record-dtypes'] = len(rdts)
+    del jug.task.alltasks[:]
     # (b) random specs x mutations
     n = 250 if quick else 4000
     for i in range(n):
@@ -378,11 +421,29 @@ def replay(path):
     from jugverif import hashmodel as hm
     d = json.load(open(path))
     r = d['replay']
+    store = dict_store()
+    jug.task.Task.store = store
+    if r.get('kind') == 'record-dtypes':
+        import ast
+        import numpy as np
+        from jug import Task
+        ta, tb = [Task(hm.f, np.frombuffer(bytes(range(48)), dtype=np.dtype(ast.literal_eval(r[k]) if r[k][:1] in '[(' else r[k]))) for k in ('a', 'b')]
+        same = ta.hash() == tb.hash()
+        print('dtypes', r['a'], r['b'], 'identifiers', ta.hash(), tb.hash())
+        print('property FAILS on this input' if same else 'property holds on this input')
+        return 1 if same else 0
+    if r.get('kind') == 'mapped-views':
+        from jug import Task
+        from jug.mapreduce import map as jmap
+        xs = jmap(hm._m21, list(range(r['n'])), map_step=r['step'])
+        ta, tb = [Task(hm.h2, eval(r[k].replace('None', ''), {'xs': xs})) for k in ('a', 'b')]
+        same = ta.hash() == tb.hash()
+        print('h2(%s) and h2(%s) with xs = map(f, range(%d), map_step=%d): identifiers' % (r['a'], r['b'], r['n'], r['step']), ta.hash(), tb.hash())
+        print('property FAILS on this input' if same else 'property holds on this input')
+        return 1 if same else 0
     if r.get('kind') != 'pair':
         print(d['what'])
         return 1
-    store = dict_store()
-    jug.task.Task.store = store
     lay = r.get('layouts') or [None, None]
     a = hm.build(r['a'], None if lay[0] is None else Layout(lay[0]))
     b = hm.build(r['b'], None if lay[1] is None else Layout(lay[1]))
